@@ -116,6 +116,18 @@ Proof.
     + apply Hnan. destruct x; [discriminate H2 | reflexivity].
 Qed.
 
+Lemma nth_error_firstn_lt {A} (l : list A) : forall n i, (i < n)%nat -> nth_error (firstn n l) i = nth_error l i.
+Proof.
+  induction l as [|x tl IH]; intros [|n] [|i] H; cbn [firstn nth_error]; try reflexivity; try lia.
+  apply IH. lia.
+Qed.
+Lemma nth_error_skipn_add {A} (l : list A) : forall n i, nth_error (skipn n l) i = nth_error l (n + i).
+Proof.
+  induction l as [|x tl IH]; intros [|n] i; cbn [skipn nth_error Nat.add]; try reflexivity.
+  - destruct i; reflexivity.
+  - apply IH.
+Qed.
+
 (* ---- every row of a fragment lies in exactly the zone its offset falls in *)
 Lemma chunks_cover {A} (size : nat) : (0 < size)%nat -> forall fuel (vs : list A) start i x,
   (length vs <= fuel)%nat -> nth_error vs i = Some x ->
@@ -126,14 +138,12 @@ Proof.
   - destruct vs as [|v tl] eqn:Ev; [destruct i; discriminate|]. rewrite <- Ev in *. cbn [chunks]. rewrite Ev. rewrite <- Ev.
     destruct (Nat.lt_ge_cases i size) as [Hlt|Hge].
     + exists start, (firstn size vs), i. split; [left; reflexivity|]. split; [|reflexivity].
-      rewrite nth_error_firstn. destruct (Nat.ltb_spec i size); [exact Hn | lia].
+      rewrite nth_error_firstn_lt by exact Hlt. exact Hn.
     + destruct (IH (skipn size vs) (start + N.of_nat size) (i - size)%nat x) as [st [c [j [Hin [Hj Hst]]]]].
       * rewrite skipn_length. subst vs. cbn [length] in *. lia.
-      * rewrite nth_error_skipn. replace (size + (i - size))%nat with i by lia. exact Hn.
+      * rewrite nth_error_skipn_add. replace (size + (i - size))%nat with i by lia. exact Hn.
       * exists st, c, j. split; [right; exact Hin|]. split; [exact Hj|]. lia.
 Qed.
-
-Lemma nth_error_firstn_compat : True. Proof. exact I. Qed.
 
 Lemma chunks_len {A} (size : nat) : forall fuel (vs : list A) start st c,
   In (st, c) (chunks fuel size start vs) -> (length c <= length vs)%nat.
